@@ -2,7 +2,7 @@
 From Coq Require Import List NArith Bool Lia String.
 From Verif.Common Require Import Packet PolicyRef Ipt.
 From Verif.C08 Require Import Model Spec ProofsFilter.
-From Verif.C09 Require Import Model ProofsPolicy ProofsModel.
+From Verif.C09 Require Import Model ProofsPolicy ProofsQos ProofsModel.
 From Verif.C09 Require Spec.
 From Verif.C11 Require Import Bpf Model.
 From Verif.C11 Require Spec ProofsMain ProofsFinal.
@@ -27,6 +27,9 @@ Record ipt_hyps (c : cfg) (e : Ipt.env) (ec : ecfg) (v : ipver) (name : string)
   ih_marks : marks_ok c = true;
   ih_type : ec_type ec = TNormal;
   ih_up : ec_admin_up ec = true;
+  ih_qos_rate : ec_qos_rate ec = false;                (* no QoS packet-rate / connection-limit rules (C09 covers them) *)
+  ih_qos_conn : ec_qos_conn ec = false;
+  ih_other : other_unmarked e;                         (* the oracle for matches outside the packet does not read the mark *)
   ih_encap : C09.Spec.encap_blocked ec p = false;
   ih_nodup : NoDup (map fst (render_endpoint ec c v name mtiers mprofs));
   ih_rule_ok : forall r, In r (all_rules mtiers mprofs) -> rule_ok c e r;
